@@ -50,8 +50,8 @@ SPEC_MUTANTS = [("ff", "UseLock", "C02_PollerNoMiss"), ("ff", "DedupLe", "C03_In
                 ("lim1", "LimitFix", "C11_LimitNotExceeded"), ("lim3hb", "HbStops", "C11_LimitCloses")]
 
 TIERS = {
-    "quick": dict(mc=QUICK_MC, sim=40, sim_depth=70, rnd=500, rnd_steps=120, chunk=150),
-    "thorough": dict(mc=THOROUGH_MC, sim=400, sim_depth=90, rnd=8000, rnd_steps=200, chunk=500),
+    "quick": dict(mc=QUICK_MC, sim=40, sim_depth=70, rnd=500, rnd_steps=120, chunk=150, stress=4),
+    "thorough": dict(mc=THOROUGH_MC, sim=400, sim_depth=90, rnd=8000, rnd_steps=200, chunk=500, stress=40),
 }
 
 
@@ -177,6 +177,17 @@ def run(tier, seed):
         for _ in range(cfg["rnd"]):
             s += 1
             scs.append(random_scenario(rng, 100000 + s))
+        # hook-free stress (second, independent detector for C02/C03): production capacities, nobody gated
+        for i in range(cfg["stress"]):
+            s += 1
+            nw = rng.choice([3, 4, 6])
+            scs.append({"s": 200000 + s, "seed": rng.randrange(1 << 30), "cfg": "stress", "stress": True,
+                        "history": [0] * rng.choice([0, 5, 150]),
+                        "plans": {f"w{j+1}": [[rng.choice(["f", "f", "f", "e"]), rng.choice([0, 0, 1])] for _ in range(rng.choice([40, 80]))]
+                                  for j in range(nw)},
+                        "B": 1024, "M": 100, "follow": rng.choice(["on", "hb"]), "tail": False, "last": 0,
+                        "limit": rng.choice([0, 0, 30]), "rctx": rng.choice([-1, -1, 0]), "sched": None, "random_steps": 0,
+                        "poller": True, "nctx": 2, "read_after": rng.choice([0, 0, 5, 20])})
         rg = os.path.join(SPEC, "regress", "conc.ndjson")
         nreg = 0
         if os.path.exists(rg):
